@@ -1,9 +1,9 @@
 #!/bin/bash
 # eval_seed.sh <patch.diff> <prop> [tier] : run a property's check against a scratch worktree of /repo with the patch applied
-# (never touches /repo itself)
+# (never touches /repo itself; evidence and replay files of such runs go to /var/tmp/xcp-verif-eval/evidence, not /verif/evidence)
 P=$1; PROP=$2; TIER=${3:-quick}
 WT=/var/tmp/evalwt-$$
 git -C /repo worktree add -q --detach $WT HEAD || exit 2
 git -C $WT apply $P || { echo "patch does not apply"; git -C /repo worktree remove --force $WT; exit 2; }
-cd /verif; XCP_REPO=$WT ./check $PROP --tier $TIER 2>&1 | grep -v "^\[xv\].* ok \|^KNOWN\|^NOTE" | tail -n ${LINES_OUT:-4} | cut -c1-300
+cd /verif; XCP_EVIDENCE_DIR=/var/tmp/xcp-verif-eval/evidence XCP_REPO=$WT ./check $PROP --tier $TIER 2>&1 | grep -v "^\[xv\].* ok \|^KNOWN\|^NOTE" | tail -n ${LINES_OUT:-4} | cut -c1-300
 git -C /repo worktree remove --force $WT
